@@ -784,6 +784,7 @@ func TestGen(t *testing.T) {
 	run(vlib.Scale(250, 4000), func(rnd *vlib.Rand, id int) { g.dwr(rnd, id) })
 	run(vlib.Scale(180, 4000), func(rnd *vlib.Rand, id int) { g.loopE2E(rnd, id, false) })
 	run(vlib.Scale(180, 4000), func(rnd *vlib.Rand, id int) { g.loopE2E(rnd, id, true) })
+	run(vlib.Scale(120, 2000), func(rnd *vlib.Rand, id int) { g.streamRun(rnd, id) })
 
 	if err := c.Flush(); err != nil {
 		t.Fatal(err)
